@@ -224,6 +224,58 @@ func checkBytes(c *mon.Case, r *rand.Rand, w int) {
 	}
 	c.Count("bytes_cases", 1)
 	c.Nontrivial(fmt.Sprintf("bytes|%x|%d|%d", orig, w, w2))
+	// chains of re-widthing: narrow then widen again (within and beyond the first width),
+	// every intermediate constant decoded through ConstUint and re-checked at the end
+	type link struct {
+		k    expr.Const
+		want []byte
+	}
+	cur := link{k, want}
+	if r.Intn(2) == 0 { // the lifter's pattern: an integer constant narrowed afterwards
+		v := r.Uint64() | 0xffffffff00000000
+		cur = link{expr.ConstFromUint(v), encode(new(big.Int).SetUint64(v), 8)}
+	}
+	chain := []link{cur}
+	desc := fmt.Sprintf("(%x)", cur.want)
+	for step := 0; step < 1+r.Intn(4); step++ {
+		var nw int
+		switch r.Intn(4) {
+		case 0:
+			nw = 1 + r.Intn(len(cur.want)) // narrower or equal
+		case 1:
+			nw = len(chain[0].want) // back to the first width
+		case 2:
+			nw = []int{1, 2, 4, 8, 16}[r.Intn(5)]
+		default:
+			nw = int(gen.Width(r))
+		}
+		var nk expr.Const
+		p, pv, stack := mon.Try(func() { nk = cur.k.WithWidth(expr.Width(nw)) })
+		desc += fmt.Sprintf(".WithWidth(%d)", nw)
+		if p {
+			c.Fail("C27.withwidth.panic", nil, "%s panicked: %v\n%s", desc, pv, stack)
+			return
+		}
+		nwant := make([]byte, nw)
+		copy(nwant, cur.want)
+		if string(nk.Bytes()) != string(nwant) || int(nk.Width()) != nw {
+			c.Fail("C27.withwidth", map[string]string{"kind": "chain"}, "%s = %x (width %d), want %x", desc, nk.Bytes(), nk.Width(), nwant)
+			return
+		}
+		cur = link{nk, nwant}
+		chain = append(chain, cur)
+		decode[uint8](c, nk, "uint8")
+		decode[uint16](c, nk, "uint16")
+		decode[uint32](c, nk, "uint32")
+		decode[uint64](c, nk, "uint64")
+		c.Count("withwidth_chain_steps", 1)
+	}
+	for i, l := range chain {
+		if string(l.k.Bytes()) != string(l.want) {
+			c.Fail("C27.withwidth", map[string]string{"kind": "chain-alias"}, "%s: constant %d of the chain changed from %x to %x", desc, i, l.want, l.k.Bytes())
+			return
+		}
+	}
 }
 
 var widths = []int{1, 2, 3, 4, 5, 6, 7, 8, 9, 10, 11, 12, 13, 14, 15, 16, 17, 31, 32, 127, 128, 255}
@@ -253,7 +305,7 @@ func run(c *mon.Case) {
 func main() {
 	mon.Main(mon.Spec{
 		Prop: "C27",
-		Rule: "case = (constructor, integer type, value, width): every integer type x widths {1..17,31,32,127,128,255} x values within +-2 of 0, 2^(8w), 2^(8w-1), the type's range ends, 2^7, 2^8 (both signs for signed types) plus random patterns; decode through ConstUint for several target types; byte constructors with source slices shorter/longer than the width and mutated afterwards; non-trivial = value within 2 of a range boundary of the width or the type, distinct by call",
+		Rule: "case = (constructor, integer type, value, width): every integer type x widths {1..17,31,32,127,128,255} x values within +-2 of 0, 2^(8w), 2^(8w-1), the type's range ends, 2^7, 2^8 (both signs for signed types) plus random patterns; decode through ConstUint for several target types; byte constructors with source slices shorter/longer than the width and mutated afterwards; chains of 1-4 WithWidth steps (narrow, widen back, machine widths) from byte and integer constants, each link decoded through ConstUint and re-checked at the end; non-trivial = value within 2 of a range boundary of the width or the type, distinct by call",
 		Explanation: "oracle: math/big two's-complement encode/decode and range tests; 'fails' = panic; acceptance must equal membership in the unsigned (resp. signed) range of w bytes",
 		Assumptions: []string{"math/big"},
 		Cases: func(t string) int {
@@ -268,7 +320,7 @@ func main() {
 			}
 			return 8000
 		},
-		RequiredCounts: []string{"accepted", "rejected", "bytes_cases"},
+		RequiredCounts: []string{"accepted", "rejected", "bytes_cases", "withwidth_chain_steps"},
 		Run:            run,
 	})
 }
